@@ -1,18 +1,30 @@
 (* C07 — Unparsed constraints parse back to the same constraint.
-   Only statements + `exact`; proofs are in Logic/UnparseFacts.v, the model in Logic/Unparse.v.
-   The ANTLR parser is not modelled: that parse_isla (unparse_isla f) == f on the implementation is
-   observed by the check (harness/c07.py part ii) on every run; the theorems below are about the
-   printer-side functions whose text the parser has to read.
+   Only statements + `exact`; proofs are in Logic/UnparseFacts.v, Logic/ParseCoreFacts.v,
+   Logic/ParseCoreMore.v; the models in Logic/Unparse.v (printer) and Logic/ParseCore.v (reference
+   parser of the core concrete syntax).  The ANTLR parser itself is not modelled: that
+   parse_isla (unparse_isla f) == f on the implementation is observed by the check (harness/c07.py
+   part ii) on every run, and parse_core is tied to parse_isla on the fragment (stream `core`).
 
-   NOT PROVED (stated for the record, covered by the correspondence only):
+   FULL (this file):
+   - C07_print_parse: wf_core f -> parse_core (unparse f) = Some (opaque f), for the fragment
+     wf_core = opaque s-expression atoms, standard predicates, `not` over predicate atoms, BINARY
+     and/or in every nesting position (the layout with indentation and the overwritten first
+     character), forall/exists with name and `in` (no match expression), forall/exists int, the
+     const header, names that resolve.  `opaque f` is f with each SMT atom kept as its printed text
+     (parse_core does not read inside atoms); C07_print_parse_exact: = Some f when the atoms of f are
+     already text; C07_unparse_parse_idempotent: unparse (parse_core (unparse f)) = unparse f.
+   - C07_lex_layout: the layout lemma by itself (any indentation of the lines of unp f lexes to toks f).
+   STILL PARTIAL / NOT PROVED:
+   - print_parse outside wf_core: match expressions, n-ary connectives (the real parser builds binary
+     ones), `not` over non-predicates (Formula.__neg__ rewrites), atoms that are not of the form `(op …)`
+     (`true`, a lone variable), the inside of SMT atoms (smt_str is not inverted; string literals
+     are covered separately by the escape round trip), the simplifications of __and__/__or__.
    - C07_escape_roundtrip (guard as strong as the recorded defect class):
        forall s rest, K_str s = false -> read_lit (str_lit s ++ rest) = Some (s, rest)
      proved below only for `plain` strings (printable ASCII without quote and backslash);
      quotes, NUL, control characters, harmless backslashes, characters >= 256 are exercised by
-     escape_roundtrip_samples (computation) and the literal cases of the check.
-   - C07_print_parse: wf_core f -> parse_core (unparse f) = Some f  and the idempotence corollary:
-     no reference parser parse_core was written. *)
-From ISLA Require Import Unparse UnparseFacts.
+     escape_roundtrip_samples (computation) and the literal cases of the check. *)
+From ISLA Require Import Unparse UnparseFacts ParseCore ParseCoreFacts ParseCoreMore.
 From Coq Require Import String.
 Open Scope N_scope.
 
@@ -98,3 +110,36 @@ Example C07_unparse_total_partial_nonvacuous :
      = lit "((_ re.loop 1 0) (str.to_re ""a""))".
 Proof. exact unparse_total_partial_nonvacuous. Qed.
 Print Assumptions C07_unparse_total_partial_nonvacuous.
+
+(* ---------- print / parse round trip on the core fragment ---------- *)
+(* the layout disappears in the lexer: under ANY indentation (n blanks before the first line, m before
+   the others) the lines of the unparser are read as the token list toks f, whatever follows *)
+Theorem C07_lex_layout : forall f, wf_shapeb f = true ->
+  forall n m rest, lexm (MW []) (join [10] (padfm n m (unp f)) ++ rest) = omap (toks f) (lexm (MW []) rest).
+Proof. exact (fun f H n m => proj2 (lex_unp f H) n m). Qed.
+Print Assumptions C07_lex_layout.
+
+Theorem C07_print_parse : forall f, wf_core f -> parse_core (unparse f) = Some (opaque f).
+Proof. exact print_parse. Qed.
+Print Assumptions C07_print_parse.
+
+Theorem C07_unparse_opaque : forall f, unparse (opaque f) = unparse f.
+Proof. exact unparse_opaque. Qed.
+Print Assumptions C07_unparse_opaque.
+
+Theorem C07_print_parse_exact : forall f, wf_core f -> opaque f = f -> parse_core (unparse f) = Some f.
+Proof. exact print_parse_exact. Qed.
+Print Assumptions C07_print_parse_exact.
+
+(* idempotence: unparse (parse_core (unparse f)) = unparse f *)
+Theorem C07_unparse_parse_idempotent : forall f, wf_core f ->
+  exists g, parse_core (unparse f) = Some g /\ unparse g = unparse f.
+Proof. exact unparse_parse_idem. Qed.
+Print Assumptions C07_unparse_parse_idempotent.
+
+Example C07_print_parse_nonvacuous :
+  wf_core pp_ex1 /\ parse_core (unparse pp_ex1) = Some (opaque pp_ex1) /\ opaque pp_ex1 <> pp_ex1 /\
+  wf_core pp_ex2 /\ header pp_ex2 <> [] /\ parse_core (unparse pp_ex2) = Some (opaque pp_ex2) /\
+  wf_core (opaque pp_ex2) /\ atoms_opaque (opaque pp_ex2).
+Proof. exact print_parse_nonvacuous. Qed.
+Print Assumptions C07_print_parse_nonvacuous.
